@@ -76,8 +76,10 @@ theorem exec_frame {S S' : Store} {c : Call} (hm : managed c.target = true) (h :
     simp only [exec] at h
     split at h
     · cases h
-    · rw [← ok_inj h]
-      exact unmanagedPart_eq rfl (filter_append_managed (fun g : Group => g.id) _ _ hm) rfl
+    · split at h
+      · cases h
+      · rw [← ok_inj h]
+        exact unmanagedPart_eq rfl (filter_append_managed (fun g : Group => g.id) _ _ hm) rfl
   | postAddrs gid e add addrs =>
     simp only [exec] at h
     split at h
@@ -91,16 +93,20 @@ theorem exec_frame {S S' : Store} {c : Call} (hm : managed c.target = true) (h :
             exact unmanagedPart_eq rfl (filter_map_managed (fun g : Group => g.id) _ gid _ hm fun _ e => e) rfl
         · split at h
           · cases h
-          · rw [← ok_inj h]
-            exact unmanagedPart_eq rfl (filter_map_managed (fun g : Group => g.id) _ gid _ hm fun _ e => e) rfl
+          · split at h
+            · cases h
+            · rw [← ok_inj h]
+              exact unmanagedPart_eq rfl (filter_map_managed (fun g : Group => g.id) _ gid _ hm fun _ e => e) rfl
   | patchExpr gid e t addrs =>
     simp only [exec] at h
     split at h
     · cases h
     · split at h
       · cases h
-      · rw [← ok_inj h]
-        exact unmanagedPart_eq rfl (filter_map_managed (fun g : Group => g.id) _ gid _ hm fun _ e => e) rfl
+      · split at h
+        · cases h
+        · rw [← ok_inj h]
+          exact unmanagedPart_eq rfl (filter_map_managed (fun g : Group => g.id) _ gid _ hm fun _ e => e) rfl
   | deleteGroup id =>
     simp only [exec] at h
     split at h
